@@ -1049,7 +1049,16 @@ def replay(ctx, path):
             resp = svc.req(method, path, case['body'], 'application/json' if path.startswith('/tck') else 'text/plain')
             print('answer:', resp)
             print('expected:', obj.get('model'))
-            return 1
+            got = classify(resp)
+            try:
+                want = json.loads(obj.get('model') or 'null')
+            except ValueError:
+                want = None
+            same = got[0] == 'data' and isinstance(want, dict) and 'data' in want and plain_json(got[1][1]) == want['data']
+            if not path.startswith('/tck'):
+                same = got[0] == 'data' and want is not None and jd(to_req(got[1][1])) == jd(want)
+            print('not reproduced' if same else 'REPRODUCED')
+            return 0 if same else 1
     finally:
         svc.stop()
     return 1
